@@ -89,7 +89,7 @@ def run(ctx):
                  "optimizers re-seed both generators from numpy's draw) and random_seed must equal the main seed; "
                  "non-trivial = nested optimizers exist; distinct by (class, random_state kind, nth_process)")
     ctx.monitor_rule = ("paired runs: same integer random_state under two different ambient generator states give identical "
-                        "search_data / best_score / best_para; a random_state=None run is reproduced by random_state=random_seed "
+                        "search_data / best_score / best_para (with another instance of the same class run in between on a space of another dimension); a random_state=None run is reproduced by random_state=random_seed "
                         "(nth_process None or 0); random_seed == random_state + nth_process; all 22 optimizers (sklearn surrogates, "
                         "populations, nested helpers), constraints, rand_rest_p, sampling; population optimizers also constructed twice with the very same "
                         "initialize object / the omitted default and a population above the number of initial positions; distinct by (optimizer, seed, config)")
@@ -102,6 +102,10 @@ def run(ctx):
 
     def f0(para):
         return -float((para["a"] - 3) ** 2 + (para["b"] - 2.5) ** 2)
+    space1 = {"u": np.arange(0, 5), "v": np.arange(0, 4), "w": np.array([1.0, 2.0, 4.0])}
+
+    def f1(para):
+        return -float(abs(para["u"] - 1) + abs(para["v"] - 2) + para["w"])
     reps = 1 if ctx.quick else 4
     for name in names:
         slow = name in gen.SLOW
@@ -122,6 +126,13 @@ def run(ctx):
                 key = (name, seed, nth, repr(sorted(cfg.items())))
                 try:
                     a = run_once(name, space0, f0, seed, nth, 111, n_iter, cfg, feas)
+                    if rep == 0:
+                        # between the two runs another instance of the same class works on a space of another dimension: whatever it leaves
+                        # behind in the process (a module-level surrogate, class attributes, caches) must not reach the second run
+                        try:
+                            run_once(name, space1, f1, seed + 1, None, 3, 9 if slow else 12, {k_: v_ for k_, v_ in cfg.items() if k_ != "initialize"}, None)
+                        except Exception:
+                            pass
                     b = run_once(name, space0, f0, seed, nth, 99991, n_iter, cfg, feas)
                 except Exception as e:
                     ctx.blocked.append(dict(optimizer=name, exc=[type(e).__name__, str(e)[:100]]))
